@@ -25,8 +25,8 @@ META = {
     "assumptions": ["documents on which resolving the path argument is itself an error by C04 (`single` with several "
                     "matches, datum modifier undefined on a selected node) are executed, counted and not judged",
                     "the literal rule is judged by the implementation itself (relational oracle): leaf meanings are C01's business"],
-    "bounds": {"quick": {"documents": "~190", "positions": 18, "path arguments": 18},
-               "thorough": {"documents": "~190 + F-type two-level", "positions": 18, "path arguments": 18}},
+    "bounds": {"quick": {"documents": "~190", "positions": 19, "path arguments": 18},
+               "thorough": {"documents": "~190 + F-type two-level", "positions": 19, "path arguments": 18}},
 }
 
 L = T.leaf
@@ -59,6 +59,7 @@ def positions(pa):
         ("length:equal_to", L("ValueLength", "equal_to", a)),
         ("dtype:equal_to", L("ValueDataType", "equal_to", a)), ("dtype:in_", L("ValueDataType", "in_", [a, str])),
         ("tree", ("and", L("Value", "greater_than_or_equal_to", a), ("or", L("Value", "equal_to", a), L("Value", "truthy")))),
+        ("tree-xor", ("xor", L("Value", "equal_to", a), ("xor", L("Value", "truthy"), L("Value", "less_than_or_equal_to", a)))),
     ]
 
 
